@@ -31,7 +31,18 @@ pub fn run(args: &Args) {
   let all = all_codes();
   let exhaustive_tags = args.opts.get("tagsets").map(|s| s == "all").unwrap_or(false);
 
-  // fixed cases first
+  // the very first call of the process is a narrow one (a memo filled by the first call would be wrong from here on)
+  {
+    let mut sub: Vec<String> = all.iter().filter(|_| rng.chance(1, 30)).cloned().collect();
+    rng.shuffle(&mut sub);
+    let mut rs = vec![];
+    for c in &sub {
+      rs.extend(rules_by_codes(&[c.clone()]));
+    }
+    let got_sub: Vec<String> = recommended_rules(rs).iter().map(|r| r.code().to_string()).collect();
+    out.case(json!({"m": "recommended", "codes": sub}), json!(got_sub), json!({"case": "recommended-of-sublist-first-call", "codes": sub}));
+  }
+  // fixed cases
   let rec: Vec<String> = recommended_rules(get_all_rules()).iter().map(|r| r.code().to_string()).collect();
   out.case(json!({"m": "recommended"}), json!(rec), json!({"case": "recommended"}));
   {
@@ -167,6 +178,30 @@ pub fn run(args: &Args) {
             out.found("C15", "result-depends-on-supplied-rule-order", &key, json!({"meta": {"tags": tags, "excl": excl, "incl": incl, "supplied_order": shuffled, "src": df.src}, "only_in_code_order": only_sorted, "only_in_supplied_order": only_shuffled}));
           }
         }
+      }
+    }
+
+    // `recommended_rules` is a function of the list it is given: arbitrary sub-lists of the registry in arbitrary
+    // order (narrow ones first), then the whole registry again — a call must not remember an earlier one
+    if i % 6 == 0 {
+      let mut sub: Vec<String> = all.iter().filter(|_| rng.chance(1, if i % 12 == 0 { 40 } else { 3 })).cloned().collect();
+      rng.shuffle(&mut sub);
+      let mut rs = vec![];
+      for c in &sub {
+        rs.extend(rules_by_codes(&[c.clone()]));
+      }
+      let tagged: Vec<String> = rs.iter().filter(|r| r.tags().iter().any(|t| t.display() == "recommended")).map(|r| r.code().to_string()).collect();
+      let got_sub: Vec<String> = recommended_rules(rs).iter().map(|r| r.code().to_string()).collect();
+      out.case(json!({"m": "recommended", "codes": sub}), json!(got_sub), json!({"case": "recommended-of-sublist", "codes": sub}));
+      out.count("recommended-of-sublist");
+      if got_sub != tagged {
+        out.found("C15", "recommended-set", "recommended-of-sublist", json!({"given": sub, "got": got_sub, "expected": tagged}));
+      }
+      let again: Vec<String> = recommended_rules(get_all_rules()).iter().map(|r| r.code().to_string()).collect();
+      let refv: Vec<String> = get_all_rules().iter().filter(|r| r.tags().iter().any(|t| t.display() == "recommended")).map(|r| r.code().to_string()).collect();
+      out.case(json!({"m": "recommended"}), json!(again), json!({"case": "recommended-after-sublist"}));
+      if again != refv {
+        out.found("C15", "recommended-set", "recommended-after-sublist", json!({"earlier_call_with": sub, "got": again, "expected": refv}));
       }
     }
 
